@@ -1,5 +1,5 @@
 import NanoVerif.Model.Proto
-import NanoVerif.Model.Program
+import NanoVerif.Model.ProgramSolve
 /-!
   driver family `program` (C04): one self-contained op per line (see harness/c04.cpp for the line format).
 
@@ -171,12 +171,18 @@ def stepRec (c : Ctx) (r : Run) (rec : Rec) (nextIsS : Bool) : Run :=
           ((stage2 P c.mufx par.miu par.alpha par.beta x u v dx du dv r0 par.maxLs s st).1,
            stage2Margin P c.mufx par.miu par.alpha par.beta x u v dx du dv r0 sc0.res par.maxLs s st huge)
       let outcome := iterate P c.mufx par x u v st true dx du dv
+      -- the contract of the LDLT oracle: residual of the model's system `kktMat · (dx, dv) = kktVec` at the logged answer,
+      -- the model's `du` (solver.cpp:299) and the linearised centrality residual at the logged `du`
+      let wres := kktResidual P (kktTopLeft P x u) (kktVec P x st) dx dv
+      let duM := duOf P x u dx st
+      let r3 := vsub (vsub st.rcent (hmul u (mv P.G dx))) (hmul (slack P x) du)
+      let wpart := s!" W {showFloats wres} {showFloats duM} {showFloats r3} {(exitKind P c.mufx par x u v st true dx du dv).code}"
       let mgK (st2 : St F) (sc2 : Scales) : F :=
         relTo (cmax3 (st.eta - st2.eta) (norm2 st.rdual - norm2 st2.rdual) (norm2 st.rprim - norm2 st2.rprim) - par.epsilon0)
           (sc0.eta + sc0.rd + sc0.rp + sc2.eta + sc2.rd + sc2.rp)
       match outcome with
       | .next x' u' v' st' =>
-        let line := s!"S {hexOfFloat smax} {showOptF s1} {hexOfFloat mg1} {showOptF s2} {hexOfFloat mg2} 0 {hexOfFloat (mgK st' (scalesAt P par.miu x' u' v'))}"
+        let line := s!"S {hexOfFloat smax} {showOptF s1} {hexOfFloat mg1} {showOptF s2} {hexOfFloat mg2} 0 {hexOfFloat (mgK st' (scalesAt P par.miu x' u' v'))}{wpart}"
         { r with cur := none, prev := st', last := .maxIters, out := line :: r.out }
       | .stop status x' u' v' st' =>
         let kind := if status == .failed then 2 else 1
@@ -184,7 +190,7 @@ def stepRec (c : Ctx) (r : Run) (rec : Rec) (nextIsS : Bool) : Run :=
         let mk := match s2 with
           | some _ => mgK st' sc'
           | none => huge
-        let line := s!"S {hexOfFloat smax} {showOptF s1} {hexOfFloat mg1} {showOptF s2} {hexOfFloat mg2} {kind} {hexOfFloat mk}"
+        let line := s!"S {hexOfFloat smax} {showOptF s1} {hexOfFloat mg1} {showOptF s2} {hexOfFloat mg2} {kind} {hexOfFloat mk}{wpart}"
         { r with cur := none, prev := st', last := status, out := line :: r.out }
   | .D xd ud vd =>
     -- on every path `done` is called with the state `update` leaves at the point it returns (stage-2 failure: reverted)
@@ -206,6 +212,42 @@ def stepRec (c : Ctx) (r : Run) (rec : Rec) (nextIsS : Bool) : Run :=
     let mgA := relTo (Float.sqrt lhs - Float.sqrt rhs) (sc.rd + sc.rp)
     let line := s!"Z {showBool valid} {showBool aprox} {hexOfFloat mgA} {hexOfFloat st.fx} {showFloats st.rdual} {showFloats st.rprim} {status.code}"
     { r with last := status, out := line :: r.out }
+
+/-- the Newton oracle of a whole run, read off the trace: iteration `k` answers with the `k`-th logged step, or with
+    "unstable" when the iteration logged none (unstable system or stage 1 failed: both leave through `done` on the same state) -/
+def oracleOf : List Rec → List (Bool × List F × List F × List F)
+  | Rec.I .. :: Rec.S dx du dv :: rest => (true, dx, du, dv) :: oracleOf rest
+  | Rec.I .. :: rest => (false, [], [], []) :: oracleOf rest
+  | _ :: rest => oracleOf rest
+  | [] => []
+
+/-- the logged `(x, u, v)` at the top of every iteration -/
+def pointsOf : List Rec → List (List F × List F × List F)
+  | Rec.I x u v :: rest => (x, u, v) :: pointsOf rest
+  | _ :: rest => pointsOf rest
+  | [] => []
+
+def sameBits (a b : List F) : Bool :=
+  a.length == b.length && (List.zipWith (fun s t => hexOfFloat s == hexOfFloat t) a b).all id
+
+/-- lockstep diagnosis of the whole run: the first iteration at whose top the model's own `(x, u, v)` is not bit-identical
+    to the logged one (`none` when the model follows the trace to the end) -/
+def firstDiverge (P : Prog F) (mufx : F) (par : Params F) (newton : Newton F) (pts : Array (List F × List F × List F)) :
+    Nat → Nat → List F → List F → List F → St F → Option Nat
+  | 0, _, _, _, _, _ => none
+  | fuel + 1, k, x, u, v, st =>
+    match pts[k]? with
+    | none => none
+    | some (xl, ul, vl) =>
+      if !(sameBits x xl && sameBits u ul && sameBits v vl) then some k
+      else
+        let nw := newton k x u v st
+        match iterate P mufx par x u v st nw.1 nw.2.1 nw.2.2.1 nw.2.2.2 with
+        | .next x' u' v' st' => firstDiverge P mufx par newton pts fuel (k + 1) x' u' v' st'
+        | .stop .. => none
+
+def showRun (r : RunSt F) : String :=
+  s!"L {r.status.code} {r.iters} {hexOfFloat r.st.fx} {hexOfFloat r.kkt} {showFloats r.x} {showFloats r.u} {showFloats r.v}"
 
 def isS : List Rec → Bool
   | Rec.S .. :: _ => true
@@ -274,7 +316,10 @@ def handle : Toks → Option String
     let st0 : St F := ⟨nanv, nanv, [], [], []⟩
     if m = 0 then
       let r := runRecs c { prev := st0, last := .maxIters } recs
-      pure (String.intercalate " " (head :: r.out.reverse ++ [s!"E {r.last.code}"]))
+      let whole := match recs with
+        | [Rec.Z x v] => [showRun (solveNoineq P' mufx par x v) ++ " -1"]
+        | _ => []
+      pure (String.intercalate " " (head :: r.out.reverse ++ whole ++ [s!"E {r.last.code}"]))
     else
       guard (x0.length = n)
       let started := start P' mufx par.miu nanv x0
@@ -288,7 +333,24 @@ def handle : Toks → Option String
         | _ => []
       let last0 : Status := if started.isSome then .maxIters else .unfeasible
       let r := runRecs c { prev := st0, last := last0 } recs
-      pure (String.intercalate " " (head :: bline :: uline ++ r.out.reverse ++ [s!"E {r.last.code}"]))
+      -- the whole `solve_with_inequality` of the model (`Model/ProgramSolve.lean`), driven by the logged Newton answers only
+      let orc := (oracleOf recs).toArray
+      let newton : Newton F := fun k _ _ _ _ => orc.getD k (false, [], [], [])
+      -- `u0 = -1 / (G x0 - h)` is compared on its own (record `U`); the run is then seeded with the logged multipliers, so
+      -- that the model's iterates are bit-identical to the logged ones as long as every decision agrees
+      let seeded : Option (List F × List F × St F) := match started, recs with
+        | some (_, _, _), Rec.I _ ul vl :: _ => some (ul, vl, update P' mufx par.miu x0 ul vl st0)
+        | s, _ => s
+      let (run, div) := match seeded with
+        | none => (solveIneq P' mufx par nanv newton x0, none)
+        | some (u0, v0, st00) =>
+          (loop P' mufx par newton par.maxIters 0 x0 u0 v0 st00 0,
+           firstDiverge P' mufx par newton (pointsOf recs).toArray par.maxIters 0 x0 u0 v0 st00)
+      let divs := match div with
+        | none => "-1"
+        | some k => toString k
+      let whole := showRun run ++ " " ++ divs
+      pure (String.intercalate " " (head :: bline :: uline ++ r.out.reverse ++ [whole, s!"E {r.last.code}"]))
   | _ => none
 
 end NanoVerif.Driver.Program
